@@ -340,6 +340,59 @@ func storm(idx int64, r *rand.Rand) {
 	rt.Distinct(fmt.Sprintf("storm|%v|%d", desc, seeds[0]))
 	addVsRemove(idx, lr)
 	acquireVsRemove(idx, lr)
+	sharedBackingArray(idx, lr)
+}
+
+// sharedBackingArray: two predicate strategies are built from two sub-slices of one array of partitions (what a caller
+// gets who keeps all its partitions in one slice and hands each strategy its part).  Adding a partition to the first
+// strategy must not touch the second: an idle strategy keeps admitting the requests of its own partition.
+func sharedBackingArray(idx int64, lr *rand.Rand) {
+	mk := func(name string) *strategy.PredicatePartition {
+		return strategy.NewPredicatePartitionWithMetricRegistry(name, 0.25, func(ctx context.Context) bool { return keyOf(ctx) == name }, core.EmptyMetricRegistryInstance)
+	}
+	n := 2 + lr.IntN(4)
+	all := make([]*strategy.PredicatePartition, n)
+	names := make([]string, n)
+	for i := range all {
+		names[i] = fmt.Sprintf("p%d", i)
+		all[i] = mk(names[i])
+	}
+	cut := 1 + lr.IntN(n-1)
+	s1, err1 := strategy.NewPredicatePartitionStrategyWithMetricRegistry(all[:cut], 8, core.EmptyMetricRegistryInstance)
+	s2, err2 := strategy.NewPredicatePartitionStrategyWithMetricRegistry(all[cut:], 8, core.EmptyMetricRegistryInstance)
+	if err1 != nil || err2 != nil {
+		panic("c03 sharedBackingArray: constructor refused")
+	}
+	concurrently := lr.IntN(2) == 0
+	if concurrently {
+		var wg sync.WaitGroup
+		wg.Add(2)
+		go func() { defer wg.Done(); s1.AddPartition(mk("x")) }()
+		go func() { defer wg.Done(); s2.AddPartition(mk("y")) }()
+		wg.Wait()
+	} else {
+		s1.AddPartition(mk("x"))
+	}
+	rt.Count("strategies_built_from_sub_slices_of_one_array", 1)
+	for i, nm := range names {
+		st, which := s1, "first"
+		if i >= cut {
+			st, which = s2, "second"
+		}
+		tok, ok := st.TryAcquire(ctxKey(nm))
+		if !ok {
+			rt.Violation("C03/predicate/idle-strategy-refuses-its-own-partition-after-another-strategy-added-one", idx, rt.J{"partitions": names, "first_strategy_has": names[:cut],
+				"second_strategy_has": names[cut:], "refused_request_for": nm, "on_the": which + " strategy", "additions_made_concurrently": concurrently, "strategy": st.String()})
+			return
+		}
+		tok.Release()
+	}
+	if tok, ok := s1.TryAcquire(ctxKey("x")); !ok {
+		rt.Violation("C03/predicate/added-partition-missing", idx, rt.J{"strategy": s1.String()})
+		return
+	} else {
+		tok.Release()
+	}
 }
 
 var spinSink atomic.Int64
